@@ -239,6 +239,39 @@ func (w *World) setupLive() {
 	w.ProviderStep(specs, false, nil)
 }
 
+// setupKeysCrowd creates eleven further (dormant) consumers that launch at once, so that ids 1, 2, 10, 11 exist and are launched
+// from the start of a keys world.
+func (w *World) setupKeysCrowd() {
+	owner := w.Accts["owner1"]
+	var specs []TxSpec
+	spawn := w.Now.Add(20 * time.Second)
+	for i := 0; i < 11; i++ {
+		specs = append(specs, TxSpec{Signer: owner, Msgs: []sdk.Msg{MsgCreateConsumer(owner, fmt.Sprintf("crowd%d", i%3), DefaultInitParams(spawn, w.Cfg.ConsumerUnbonding), nil, nil)}, Tag: "create-consumer"})
+	}
+	w.Tick()
+	w.ProviderStep(specs, false, nil)
+	w.syncShadow()
+	specs = nil
+	for _, ci := range w.Shadow.Consumers {
+		if ci.WantLive {
+			continue
+		}
+		for _, v := range w.createdVals() {
+			if (v.Idx+len(ci.ID))%4 == 0 {
+				continue
+			}
+			specs = append(specs, TxSpec{Signer: v.Oper, Msgs: []sdk.Msg{MsgOptIn(v, ci.ID, nil)}, Tag: "opt-in"})
+		}
+	}
+	w.Tick()
+	w.ProviderStep(specs, false, nil)
+	for i := 0; i < 5; i++ {
+		w.Tick()
+		w.ProviderStep(nil, false, nil)
+	}
+	w.Op("keys crowd: %d consumers", len(w.Shadow.Consumers))
+}
+
 // syncShadow refreshes owner information from chain state (ownership can change through governance).
 func (w *World) syncShadow() {
 	pk := w.P.PApp.ProviderKeeper
@@ -263,6 +296,9 @@ func (w *World) MainLoop() {
 		w.installRewardsHooks()
 	}
 	w.setupLive()
+	if w.Cfg.Profile == "keys" {
+		w.setupKeysCrowd()
+	}
 	for w.Step = 1; w.Step <= w.Cfg.Steps; w.Step++ {
 		if w.P.Halted {
 			break
